@@ -9,6 +9,7 @@ import (
 	"testing/synctest"
 	"time"
 
+	"github.com/ansible/receptor/pkg/logger"
 	"github.com/ansible/receptor/pkg/netceptor"
 )
 
@@ -191,7 +192,134 @@ func runC18Once(t *testing.T, sc c18Scenario, r *xrun) []Violation {
 	return dedupViol(out.Viol)
 }
 
+// ---- a Close that lands inside an advertisement round --------------------------------------------------
+//
+// sendServiceAds snapshots the advertised listeners and then sends one advertisement after the other. The
+// log call between two sends is used as the seam: when the k-th advertisement of the round is about to be
+// sent, another advertised service (not yet sent in this round) is closed. Every k, both delivery orders.
+
+func runC18CloseInRound(t *testing.T, nsvc int, closeAt int, reverse bool) CaseOut {
+	var out CaseOut
+	out.Nontrivial = true
+	bubble(t, func(t *testing.T) {
+		m := newMesh(defaultConsts, "a", "b")
+		m.up("a", "b", 1)
+		m.closure(1)
+		mon := &c18Mon{m: m, out: &out, withdrawn: map[string]time.Time{}, listed: map[string]time.Time{}}
+		open := map[string]netceptor.PacketConner{}
+		for i := 0; i < nsvc; i++ {
+			svc := fmt.Sprintf("svc%d", i)
+			time.Sleep(10 * time.Millisecond)
+			pc, err := m.nodes["a"].ListenPacketAndAdvertise(svc, map[string]string{"k": svc})
+			if err != nil {
+				out.violate("harness:c18-open", "%v", err)
+				return
+			}
+			open[svc] = pc
+		}
+		m.wait()
+		// first round: everybody learns all services
+		time.Sleep(5100 * time.Millisecond)
+		m.wait()
+		m.flush()
+		// second (periodic) round with a Close inside it
+		sent := map[string]bool{}
+		count := 0
+		closed := ""
+		logger.RegisterLogger(func(level int, format string, v ...interface{}) {
+			if !strings.HasPrefix(format, "Sending service advertisement") || len(v) == 0 {
+				return
+			}
+			sa, ok := v[0].(*netceptor.ServiceAdvertisement)
+			if !ok || sa.NodeID != "a" {
+				return
+			}
+			sent[sa.Service] = true
+			if count == closeAt && closed == "" {
+				for i := 0; i < nsvc; i++ {
+					svc := fmt.Sprintf("svc%d", i)
+					if !sent[svc] {
+						time.Sleep(time.Millisecond)
+						open[svc].Close()
+						delete(open, svc)
+						closed = svc
+						time.Sleep(time.Millisecond)
+						break
+					}
+				}
+			}
+			count++
+		})
+		deliverAll := func() {
+			for i := 0; i < 200; i++ {
+				moved := false
+				for _, k := range m.sortedLinks() {
+					if m.sess[k].pending() > 0 {
+						sk := m.sess[k]
+						sk.mu.Lock()
+						d := sk.outbox[0].data
+						sk.mu.Unlock()
+						m.deliverAt(k, 0)
+						mon.post(k, d)
+						moved = true
+					}
+				}
+				if !moved {
+					break
+				}
+			}
+		}
+		reversed := false
+		// one advertisement period in 2.5 s steps with deliveries in between (links must not look idle)
+		for j := 0; j < 26; j++ {
+			m.tick(m.consts.adTime / 24)
+			if closed != "" && !reversed {
+				reversed = true
+				// deliver in link order or in reverse order (the withdrawal before / after the advertisements)
+				if s := m.sess["a>b"]; s != nil && reverse {
+					s.mu.Lock()
+					for i, j := 0, len(s.outbox)-1; i < j; i, j = i+1, j-1 {
+						s.outbox[i], s.outbox[j] = s.outbox[j], s.outbox[i]
+					}
+					s.mu.Unlock()
+				}
+			}
+			deliverAll()
+		}
+		logger.RegisterLogger(nil)
+		if closed == "" {
+			out.count("close_not_placed", 1)
+		}
+		m.settle()
+		var want, got []string
+		for svc := range open {
+			want = append(want, "a:"+svc)
+		}
+		for _, a := range m.nodes["b"].Status().Advertisements {
+			got = append(got, a.NodeID+":"+a.Service)
+		}
+		sort.Strings(want)
+		sort.Strings(got)
+		if strings.Join(want, ",") != strings.Join(got, ",") {
+			out.violate("ads:closure-mismatch:close-inside-ad-round", "services=%d, %s closed while advertisement %d of the round was being sent (reverse delivery=%v): b lists %v, open services are %v", nsvc, closed, closeAt, reverse, got, want)
+		}
+		out.Outcome = fmt.Sprintf("close-in-round n=%d", nsvc)
+		m.end()
+	})
+	return out
+}
+
 func runC18(w *W) {
+	for _, nsvc := range []int{2, 3} {
+		for closeAt := 0; closeAt < nsvc-1; closeAt++ {
+			for _, rev := range []bool{false, true} {
+				nsvc, closeAt, rev := nsvc, closeAt, rev
+				w.Case(fmt.Sprintf("close inside ad round services=%d at=%d reverse=%v", nsvc, closeAt, rev), func() CaseOut {
+					return runC18CloseInRound(w.T, nsvc, closeAt, rev)
+				})
+			}
+		}
+	}
 	tri := [][2]string{{"a", "b"}, {"b", "c"}, {"a", "c"}}
 	chain := [][2]string{{"a", "b"}, {"b", "c"}}
 	abc := []string{"a", "b", "c"}
@@ -227,7 +355,8 @@ func init() {
 		Level:     "model_checking",
 		Technique: "stateless deviation-bounded DFS with state-hash pruning over delivery orders of service advertisements and withdrawals between real Netceptor nodes in a synctest bubble (links FIFO with held links spanning events; thorough: bag links); monitors after every delivery, listing compared with the open services after a bounded closure",
 		Rule: "scenarios on a triangle, a 3-chain and a late joiner: open / close / reopen of advertised services on one or two nodes, advertisement ticks, link up of the joiner; every schedule of the advertisement messages with <=2 deviations (deliver another link first, hold a link — also across the next event —, fire the next event early); routing messages are delivered canonically. " +
-			"Monitors: a listed time stamp never decreases; after a node processed a withdrawal with time T it never lists that service with a time <= T; after closure (all in flight, bounded by 200 deliveries, + 3 advertisement periods) every node lists exactly the open advertised services of reachable nodes with tags and type. A case is one scenario part; non-trivial = at least one choice point.",
+			"Monitors: a listed time stamp never decreases; after a node processed a withdrawal with time T it never lists that service with a time <= T; after closure (all in flight, bounded by 200 deliveries, + 3 advertisement periods) every node lists exactly the open advertised services of reachable nodes with tags and type. A case is one scenario part; non-trivial = at least one choice point. " +
+			"Plus: a Close of an advertised service placed inside an advertisement round (between the sends of the round, using the log call as the seam) for 2 and 3 services, every position, both delivery orders.",
 		Assumptions: []string{"operations on one service are >= 10 virtual ms apart (time stamps are wall-clock)", "withdrawals that keep circulating are counted (closures_with_circulating_messages), the statement does not speak about them"},
 		Run:         runC18,
 		CaseTimeout: 90 * time.Second,
